@@ -5,7 +5,7 @@ import re
 from ..core import AnalysisError
 from .. import pyfront as P
 from .. import cfront as C
-from .. import rattr
+from .. import rattr, gsa
 
 EXPLANATION = ('Producer/consumer agreement between girepository/gdump.c (clang AST: every XML fragment it prints, with the guard of '
                'each attribute and the C type of each printf argument) and giscanner/gdumpparser.py (tag-flow model of every attribute '
@@ -136,43 +136,62 @@ def check(ctx):
     for k, v in abi.items():
         got = py.try_fold(ast.Name(id=k, ctx=ast.Load()), m)
         r2.check(got == v, '%s == %d' % (k, v), rel, 1, '%s is %r in gdumpparser.py, GLib\'s ABI value is %d' % (k, got, v), detail=got)
-    ip = py.func('gdumpparser', 'GDumpParser._introspect_properties')
+    IPS = gsa.summarise(ctx, 'gdumpparser', 'GDumpParser._introspect_properties')
+    ip = IPS.func
     want = {'readable': 'G_PARAM_READABLE', 'writable': 'G_PARAM_WRITABLE', 'construct': 'G_PARAM_CONSTRUCT', 'construct_only': 'G_PARAM_CONSTRUCT_ONLY'}
-    defs = {}
-    for t, v, st in P.stores_in(ip):
-        if isinstance(t, ast.Name) and t.id in want:
-            defs.setdefault(t.id, []).append((v, st))
-    loop = [n for n in P.walk_no_nested(ip) if isinstance(n, ast.For)]
-    for name, const in sorted(want.items()):
-        d = defs.get(name, [])
-        ok = len(d) == 1 and P.src(d[0][0]) in ('flags & %s != 0' % const, '(flags & %s) != 0' % const, 'bool(flags & %s)' % const)
-        if ok:
-            gs = [g for g in P.guards(d[0][1], stop=loop[0] if loop else None) if g.kind in ('if', 'early')]
-            ok = not gs
-        r2.check(ok, 'property %s = bit %s, tested independently' % (name, const), rel, d[0][1].lineno if d else ip.lineno,
-                 'property flag %s is not decoded as an unconditional test of bit %s: %s — flag words with several bits set (e.g. CONSTRUCT together '
-                 'with CONSTRUCT_ONLY) lose a flag' % (name, const, [P.src(x[0]) for x in d]), detail=[P.src(x[0]) for x in d])
-    pc = [c for c in P.calls_in(ip) if P.call_name(c) == 'ast.Property']
-    if len(pc) != 1:
+    pcalls = [e for e in IPS.effects if e.kind == 'call' and e.target == 'ast.Property' and e.vnode is not None]
+    if len(pcalls) < 1:
         raise AnalysisError('_introspect_properties: ast.Property(...) not found')
-    b = P.bind_call(pc[0], py.func('ast', 'Property.__init__'))
-    for name in sorted(want):
-        r2.check(P.src(b.get(name)) == name, 'flag %s reaches Property(%s=...)' % (name, name), rel, pc[0].lineno,
-                 'ast.Property receives %s for its %s argument: two flags are swapped' % (P.src(b.get(name)), name))
-    r2.check(P.src(b.get('name')) == "pspec.attrib['name']" and 'create_from_gtype_name(ctype)' in P.src(b.get('typeobj')), 'property name and type as dumped', rel, pc[0].lineno,
-             'property name/type arguments changed')
-    isg = py.func('gdumpparser', 'GDumpParser._introspect_signals')
-    sc = [c for c in P.calls_in(isg) if P.call_name(c) == 'ast.Signal']
-    if len(sc) != 1:
+    pcall = pcalls[0]
+    b = P.bind_call(pcall.vnode, py.func('ast', 'Property.__init__'))
+    for other in pcalls[1:]:
+        # the same construction reached with different (branch-dependent) argument values: every variant is checked
+        bo = P.bind_call(other.vnode, py.func('ast', 'Property.__init__'))
+        for name in ('readable', 'writable', 'construct', 'construct_only'):
+            if bo.get(name) is not None and gsa._unparse(bo.get(name)) != (gsa._unparse(b.get(name)) if b.get(name) is not None else None):
+                b[name] = bo.get(name) if not isinstance(bo.get(name), ast.Compare) else b.get(name)
+
+    def bit_test(n):
+        """(flag word text, constant name) when n is `(W & CONST) != 0` or `bool(W & CONST)`"""
+        if isinstance(n, ast.Call) and P.call_name(n) == 'bool' and len(n.args) == 1:
+            inner = n.args[0]
+        elif isinstance(n, ast.Compare) and len(n.ops) == 1 and isinstance(n.ops[0], ast.NotEq) and isinstance(n.comparators[0], ast.Constant) and n.comparators[0].value == 0:
+            inner = n.left
+        else:
+            return None
+        if isinstance(inner, ast.BinOp) and isinstance(inner.op, ast.BitAnd) and isinstance(inner.right, ast.Name):
+            return gsa._unparse(inner.left), inner.right.id
+        return None
+    words = set()
+    for name, const in sorted(want.items()):
+        bt = bit_test(b.get(name)) if b.get(name) is not None else None
+        if bt:
+            words.add(bt[0])
+        r2.check(bt is not None and bt[1] == const, 'property %s = bit %s, tested independently' % (name, const), rel, pcall.line,
+                 'ast.Property receives %s for its %s argument, expected an unconditional test of bit %s of the dumped flag word — with several bits set (e.g. CONSTRUCT together '
+                 'with CONSTRUCT_ONLY) a flag is lost, or two flags are swapped' % (gsa._unparse(b.get(name)) if b.get(name) is not None else None, name, const),
+                 detail=gsa._unparse(b.get(name)) if b.get(name) is not None else None)
+    r2.check(len(words) == 1 and re.match(r"^int\(\w+\.attrib\['flags'\]\)$", list(words)[0] if words else ''), 'all four bits tested on the dumped flags attribute', rel, pcall.line,
+             'flag words tested: %s' % sorted(words))
+    flagdep = [a_ for a_ in gsa.atoms(pcall.cond) if 'G_PARAM_' in a_ or "attrib['flags']" in a_]
+    r2.check(not flagdep, 'property creation does not depend on the flag word', rel, pcall.line, 'ast.Property(...) is reached only when %s' % flagdep)
+    r2.check(b.get('name') is not None and re.match(r"^\w+\.attrib\['name'\]$", gsa._unparse(b.get('name'))) and b.get('typeobj') is not None and 'create_from_gtype_name(' in gsa._unparse(b.get('typeobj')),
+             'property name and type as dumped', rel, pcall.line, 'property name/type arguments changed')
+    ISG = gsa.summarise(ctx, 'gdumpparser', 'GDumpParser._introspect_signals')
+    isg = ISG.func
+    scalls = [e for e in ISG.effects if e.kind == 'call' and e.target == 'ast.Signal' and e.vnode is not None]
+    if len(scalls) != 1:
         raise AnalysisError('_introspect_signals: ast.Signal(...) not found')
-    sb = P.bind_call(sc[0], py.func('ast', 'Signal.__init__'))
-    sdefs = dict((t.id, P.src(v)) for t, v, st in P.stores_in(isg) if isinstance(t, ast.Name))
+    sc0 = scalls[0]
+    sb = P.bind_call(sc0.vnode, py.func('ast', 'Signal.__init__'))
     for arg, attr in (('no_recurse', 'no-recurse'), ('detailed', 'detailed'), ('action', 'action'), ('no_hooks', 'no-hooks')):
-        ok = P.src(sb.get(arg)) == arg and sdefs.get(arg) == "signal_info.attrib.get('%s', '0') == '1'" % attr
-        r2.check(ok, 'signal flag %s <- @%s' % (arg, attr), rel, sc[0].lineno, 'signal %s is decoded as %s and passed as %s' % (arg, sdefs.get(arg), P.src(sb.get(arg))))
+        got = gsa._unparse(sb.get(arg)) if sb.get(arg) is not None else None
+        ok = got is not None and re.match(r"^\w+\.attrib\.get\('%s', '0'\) == '1'$" % re.escape(attr), got)
+        r2.check(ok, 'signal flag %s <- @%s' % (arg, attr), rel, sc0.line, 'signal %s is decoded as %s' % (arg, got))
         w = voc.get('signal', {}).get(attr)
         r2.check(w is not None and w['values'] == {'1'}, 'gdump.c writes %s="1"' % attr, GD, w['line'] if w else 1, 'gdump.c writes %s=%s' % (attr, w['values'] if w else None))
-    r2.check(P.src(sb.get('when')) == 'when' and sdefs.get('when') == "signal_info.attrib.get('when')", 'signal run phase passed through', rel, sc[0].lineno, 'when: %s' % sdefs.get('when'))
+    gotw = gsa._unparse(sb.get('when')) if sb.get('when') is not None else None
+    r2.check(gotw is not None and re.match(r"^\w+\.attrib\.get\('when'\)$", gotw), 'signal run phase passed through', rel, sc0.line, 'when: %s' % gotw)
     am = py.mod('ast')
     phases = set(py.fold_name(am, n) for n in ('SIGNAL_FIRST', 'SIGNAL_LAST', 'SIGNAL_CLEANUP'))
     w = voc.get('signal', {}).get('when', {'values': set()})
@@ -194,53 +213,73 @@ def check(ctx):
     # ------------------------------------------------------------------ R3 pairings
     r3 = ctx.rule('R3', 'pairing rules: boxed/pointer <-> record or union, class struct both ways, get-type removal, full parent chain', floor=9)
     for fn in ('_pair_boxed_type', '_pair_pointer_type'):
-        f = py.func('gdumpparser', 'GDumpParser.' + fn)
-        iso = [c for c in P.calls_in(f) if P.call_name(c) == 'isinstance' and P.src(c.args[0]) == 'pair_node']
-        kinds = set()
-        for c in iso:
-            v = c.args[1]
-            kinds |= set(P.src(e) for e in (v.elts if isinstance(v, ast.Tuple) else [v]))
-        r3.check(kinds == {'ast.Record', 'ast.Union'}, '%s accepts records and unions' % fn, rel, f.lineno,
-                 '%s pairs a registered type only with %s: a boxed/pointer type whose C declaration is a union (or record) keeps no glib:type-name/get-type and its '
-                 'get_type function stays in the function list' % (fn, sorted(kinds)), detail=sorted(kinds))
-        ag = [c for c in P.calls_in(f) if isinstance(c.func, ast.Attribute) and c.func.attr == 'add_gtype']
-        okp = len(ag) == 1 and [P.src(a) for a in ag[0].args] == ['%s.gtype_name' % f.args.args[1].arg, '%s.get_type' % f.args.args[1].arg]
-        pre = [P.src(v) for t, v, st in P.stores_in(f) if P.src(t) == 'pair_node.c_symbol_prefix']
-        r3.check(okp and pre == ['%s.c_symbol_prefix' % f.args.args[1].arg], '%s transfers gtype name, get-type and symbol prefix' % fn, rel, f.lineno, 'add_gtype/c_symbol_prefix changed')
-    fc = py.func('gdumpparser', 'GDumpParser._find_class_record')
-    st = dict((P.src(t), P.src(v)) for t, v, s_ in P.stores_in(fc))
-    r3.check(st.get('cls.glib_type_struct') == 'pair_record.create_type()' and st.get('pair_record.is_gtype_struct_for') == 'cls.create_type()', 'class <-> class struct linked both ways',
-             rel, fc.lineno, 'links: %s' % {k: v for k, v in st.items() if 'type_struct' in k})
-    pa = py.func('gdumpparser', 'GDumpParser.parse')
-    rm_ = [c for c in P.calls_in(pa) if P.src(c.func) == 'self._namespace.remove']
-    ap = [c for c in P.calls_in(pa) if P.src(c.func) == 'to_remove.append']
-    okr = len(rm_) == 1 and len(ap) == 1 and P.src(ap[0].args[0]) == 'get_type_func'
+        PS = gsa.summarise(ctx, 'gdumpparser', 'GDumpParser.' + fn)
+        f = PS.func
+        src_ = PS.P(1)
+        ag = [e for e in PS.effects if e.kind == 'call' and e.target.endswith('.add_gtype')]
+        REC, UNI = r'^isinstance\(.*, ast\.Record\)$', r'^isinstance\(.*, ast\.Union\)$'
+        okk = bool(ag) and all(gsa.allowed(PS, e, [(REC, True), (UNI, False)]) and gsa.allowed(PS, e, [(REC, False), (UNI, True)]) and gsa.impossible(PS, e, [(REC, False), (UNI, False)]) for e in ag)
+        r3.check(okk, '%s accepts records and unions' % fn, rel, f.lineno,
+                 '%s does not pair a registered type with both records and unions (add_gtype reached when %s): a boxed/pointer type whose C declaration is a union (or record) keeps no '
+                 'glib:type-name/get-type and its get_type function stays in the function list' % (fn, [e.when()[:160] for e in ag]), detail=[e.when()[:160] for e in ag])
+        okp = len(ag) == 1 and ag[0].args == ['%s.gtype_name' % src_, '%s.get_type' % src_]
+        recv = ag[0].target[:-len('.add_gtype')] if ag else '?'
+        pre = [e for e in PS.effects if e.kind == 'store' and e.target == '%s.c_symbol_prefix' % recv]
+        r3.check(okp and len(pre) == 1 and pre[0].value == '%s.c_symbol_prefix' % src_ and gsa.equiv(pre[0].cond, ag[0].cond), '%s transfers gtype name, get-type and symbol prefix' % fn, rel, f.lineno,
+                 'add_gtype/c_symbol_prefix changed: %s %s' % ([e.value for e in ag], [(e.target, e.value) for e in pre]))
+    FC = gsa.summarise(ctx, 'gdumpparser', 'GDumpParser._find_class_record')
+    fc = FC.func
+    clsp = FC.P(1)
+    l1 = [e for e in FC.effects if e.kind == 'store' and e.target == '%s.glib_type_struct' % clsp and e.value.endswith('.create_type()')]
+    l2 = [e for e in FC.effects if e.kind == 'store' and e.target.endswith('.is_gtype_struct_for') and e.value == '%s.create_type()' % clsp]
+    r3.check(bool(l1) and bool(l2) and all(a_.value[:-len('.create_type()')] in [b_.target[:-len('.is_gtype_struct_for')] for b_ in l2] for a_ in l1) and
+             gsa.equiv(gsa.cond_any(l1), gsa.cond_any(l2)), 'class <-> class struct linked both ways',
+             rel, fc.lineno, 'links: %s' % [(e.target, e.value) for e in l1 + l2])
+    PAR = gsa.summarise(ctx, 'gdumpparser', 'GDumpParser.parse', inline_only=())
+    pa = PAR.func
+    rm_ = [e for e in PAR.effects if e.kind == 'call' and e.target == 'self._namespace.remove']
+    ap = [e for e in PAR.effects if e.kind == 'call' and re.match(r'^\w+\.append$', e.target) and rm_ and any(l == e.target[:-len('.append')] for r_ in rm_ for l in r_.loops)]
+    okr = len(rm_) == 1 and len(ap) == 1 and re.match(r'^self\._namespace\.get\(', ap[0].args[0] if ap[0].args else '')
     if okr:
-        gs = [g.text() for g in P.guards(ap[0]) if g.kind in ('if', 'early')]
-        okr = any('isinstance(node, ast.Registered) and node.get_type is not None' in g for g in gs) and any("get_type_name == 'intern'" in g for g in gs)
-    r3.check(okr, 'get-type functions of registered types are removed', rel, pa.lineno, 'get_type removal changed')
-    pp = py.func('gdumpparser', 'GDumpParser._parse_parents')
-    pst = [(P.src(t), v) for t, v, s_ in P.stores_in(pp)]
-    chain = [v for t, v in pst if t == 'node.parent_chain']
-    okc = len(chain) == 1 and isinstance(chain[0], ast.Name)
-    if okc:
-        vals = [P.src(v) for t, v in pst if t == chain[0].id]
-        okc = sorted(vals) == sorted(["list(map(lambda s: ast.Type.create_from_gtype_name(s), parents_str.split(',')))", '[]'])
+        e = ap[0]
+        okr = gsa.impossible(PAR, e, [(r'^isinstance\(\w+, ast\.Registered\)$', False)]) and gsa.impossible(PAR, e, [(r'\.get_type is None$', True)]) and \
+            gsa.impossible(PAR, e, [(r"\.get_type == 'intern'$", True)]) and gsa.allowed(PAR, e, [(r'^isinstance\(\w+, ast\.Registered\)$', True), (r'\.get_type is None$', False), (r"\.get_type == 'intern'$", False)])
+    r3.check(okr, 'get-type functions of registered types are removed', rel, pa.lineno, 'get_type removal changed: %s / %s' % ([e.value[:80] for e in ap], [e.value for e in rm_]))
+    PP = gsa.summarise(ctx, 'gdumpparser', 'GDumpParser._parse_parents', inline_only=())
+    pp = PP.func
+    chain = [e for e in PP.effects if e.kind == 'store' and e.target == '%s.parent_chain' % PP.P(2)]
+
+    def whole_list(n):
+        """value is built from every element of `<parents string>.split(',')`"""
+        if isinstance(n, ast.List) and not n.elts:
+            return True
+        if isinstance(n, ast.Call) and P.call_name(n) == 'list' and len(n.args) == 1:
+            n = n.args[0]
+        if isinstance(n, ast.Call) and P.call_name(n) == 'map' and len(n.args) == 2:
+            return 'create_from_gtype_name' in gsa._unparse(n.args[0]) and re.search(r"\.split\(','\)$", gsa._unparse(n.args[1])) is not None
+        if isinstance(n, (ast.ListComp, ast.GeneratorExp)) and len(n.generators) == 1 and not n.generators[0].ifs:
+            it_ = n.generators[0].iter
+            if isinstance(it_, ast.List) and not it_.elts:
+                return True
+            return 'create_from_gtype_name' in gsa._unparse(n.elt) and re.search(r"\.split\(','\)$", gsa._unparse(it_)) is not None
+        return False
+    okc = bool(chain) and all(e.vnode is not None and whole_list(e.vnode) for e in chain) and any("split(',')" in e.value for e in chain)
     r3.check(okc and not [c for c in P.calls_in(pp) if 'resolve' in (P.call_name(c) or '') or 'lookup' in (P.call_name(c) or '')], 'parent chain kept complete and unresolved', rel,
-             pp.lineno, '_parse_parents filters or resolves the parent chain while the dump is still being read: an ancestor from the same namespace that is dumped later '
-             'is dropped and the class gets a more distant parent')
+             pp.lineno, '_parse_parents filters or resolves the parent chain while the dump is still being read (%s): an ancestor from the same namespace that is dumped later '
+             'is dropped and the class gets a more distant parent' % [e.value[:100] for e in chain])
     mt = py.mod('maintransformer')
-    tr = py.func('maintransformer', 'MainTransformer._pass_type_resolution')
-    loops = [n for n in P.walk_no_nested(tr) if isinstance(n, ast.For) and P.src(n.iter) == 'node.parent_chain']
-    okl = len(loops) == 1
-    if okl:
-        lp = loops[0]
-        sets = [s_ for t, v, s_ in P.stores_in(lp) if P.src(t) == 'node.parent_type' and contains(lp.body, s_)]
-        okl = len(sets) == 1 and P.src(sets[0].value) == lp.target.id
-        if okl:
-            blk = P.block_of(sets[0])
-            okl = isinstance(blk[2][-1], ast.Break) and any('target' == g.text() for g in P.guards(sets[0], stop=lp))
-    r3.check(okl, 'nearest resolvable parent wins', mt.rel, tr.lineno, '_pass_type_resolution no longer walks parent_chain in order and stops at the first known parent')
+    TR = gsa.summarise(ctx, 'maintransformer', 'MainTransformer._pass_type_resolution', opaque=('_resolve', '_resolve_toplevel', '_resolve_type_from_ctype', '_resolve_type_from_gtype_name'))
+    tr = TR.func
+    nd_ = TR.P(1)
+    sets = [e for e in TR.effects if e.kind == 'store' and e.target == '%s.parent_type' % nd_ and re.match(r'^\w+$', e.value)]
+    okl = len(sets) >= 1
+    for e in sets:
+        # the walk stops right there: a break, or the return of the helper that does the walk, under the same condition
+        stops = [x for x in TR.effects if x.kind in ('break', 'return') and any(l == '%s.parent_chain' % nd_ for l in x.loops) and gsa.implies(e.cond, x.cond)
+                 and (x.kind == 'break' or x.value == e.value)]
+        lookups = [a_ for a_ in gsa.atoms(e.cond) if 'lookup' in a_ or 'resolve' in a_]
+        okl = okl and bool(stops) and bool(lookups)
+    r3.check(okl, 'nearest resolvable parent wins', mt.rel, tr.lineno, '_pass_type_resolution no longer walks parent_chain in order and stops at the first known parent: %s' % [(e.value, e.when()[:120]) for e in sets])
     eq = py.func('maintransformer', 'MainTransformer._pair_quarks_with_enums')
     eds = [(v, s_) for t, v, s_ in P.stores_in(eq) if isinstance(t, ast.Attribute) and t.attr == 'error_domain']
     oke = len(eds) == 1 and isinstance(eds[0][0], ast.Attribute) and eds[0][0].attr == 'error_domain' and isinstance(eds[0][0].value, ast.Name)
@@ -251,16 +290,22 @@ def check(ctx):
 
     # ------------------------------------------------------------------ R4 virtuals
     r4 = ctx.rule('R4', 'virtual methods only from class-struct callbacks whose first parameter is the instance', floor=2)
-    pv = py.func('maintransformer', 'MainTransformer._pair_class_virtuals')
-    vc = [c for c in P.calls_in(pv) if P.call_name(c) == 'ast.VFunction.from_callback']
-    if len(vc) != 1:
+    PV = gsa.summarise(ctx, 'maintransformer', 'MainTransformer._pair_class_virtuals', opaque=('_apply_annotations_callable', '_get_annotation_name'))
+    pv = PV.func
+    vc = [e for e in PV.effects if e.kind == 'call' and e.target == 'ast.VFunction.from_callback' and e.vnode is not None]
+    if len(vc) < 1:
         raise AnalysisError('_pair_class_virtuals: VFunction.from_callback not found')
-    gs = [g.text() for g in P.guards(vc[0]) if g.kind in ('if', 'early')]
-    r4.check('not (firstparam_type != node_type)' in gs and 'not (len(callback.parameters) == 0)' in gs, 'first parameter must be the instance type', mt.rel, vc[0].lineno,
-             'vfunc creation guards: %s' % gs, detail=gs)
-    d = dict((P.src(t), P.src(v)) for t, v, s_ in P.stores_in(pv))
-    r4.check(d.get('node_type') == 'node.create_type()' and d.get('firstparam_type') == 'callback.parameters[0].type', 'compared types are the class and the first parameter', mt.rel,
-             pv.lineno, 'definitions: %s' % {k: d.get(k) for k in ('node_type', 'firstparam_type')})
+    nodep = PV.P(1)
+    for e in vc:
+        cb = e.args[1] if len(e.args) > 1 else '?'
+        CBE = re.escape(cb)
+        SAME = r'^%s\.parameters\[0\]\.type == %s\.create_type\(\)$|^%s\.create_type\(\) == %s\.parameters\[0\]\.type$' % (CBE, re.escape(nodep), re.escape(nodep), CBE)
+        NONEMPTY = r'^%s\.parameters$' % CBE
+        ok = gsa.impossible(PV, e, [(SAME, False)]) and gsa.impossible(PV, e, [(NONEMPTY, False)]) and any(re.search(SAME, a_) for a_ in gsa.atoms(e.cond))
+        r4.check(ok, 'first parameter must be the instance type', mt.rel, e.line,
+                 'VFunction.from_callback(%s) is reached when %s: the callback\'s first parameter type is not required to be the class itself' % (cb, e.when()[-300:]), detail=e.when()[-300:])
+    r4.check(all(any(re.search(r'\.parameters\[0\]\.type == %s\.create_type\(\)$' % re.escape(nodep), a_) for a_ in gsa.atoms(e.cond)) for e in vc), 'compared types are the class and the first parameter', mt.rel,
+             pv.lineno, 'conditions: %s' % [e.when()[-200:] for e in vc])
 
 
 def printed_value_signedness(ctx, r2):
